@@ -3,6 +3,7 @@ model prediction API consistency."""
 import itertools
 import math
 
+import contextlib
 import numpy as np
 from hypothesis import strategies as st
 
@@ -281,8 +282,8 @@ class Built:
         n = case['n']
         P = ref.n_pairs(n)
         self.n = n
-        basis = np.array(case['basis'] if basis is None else basis, dtype=float)
-        data = np.array(case['data'], dtype=float)
+        basis = np.array(case['basis'] if basis is None else basis, dtype=float) * 2.0 ** case.get('basis_unit', 0)
+        data = np.array(case['data'], dtype=float) * 2.0 ** case.get('data_unit', 0)
         for e in case['nan_pairs']:
             basis[:, e] = np.nan
             data[:, e] = np.nan
@@ -350,8 +351,46 @@ def call_fit(fn, model, built, sig, on_error='violation', **extra):
     kw = dict(method=built.method, sigma_k=built.sigma)
     kw.update(built.fit_kw)
     kw.update(extra)
-    with core.watchdog(20):
+    with core.watchdog(20), step_budget(sig):
         return lib(fn, model, built.data_rdms, on_error=on_error, sig=sig, **kw)
+
+
+class _CountingNumpy:
+    """stands in for the `np` name inside rsatoolbox.model.fitter for one call: counts np.max
+    evaluations (the loop condition of the active-set solver) so that non-termination is decided
+    by a step count - a deterministic oracle - instead of by the wall clock"""
+
+    def __init__(self, real, budget):
+        self._real, self._budget, self.count = real, budget, 0
+
+    def __getattr__(self, name):
+        return getattr(self._real, name)
+
+    def max(self, *a, **k):
+        self.count += 1
+        if self.count > self._budget:
+            raise _NoTermination()
+        return self._real.max(*a, **k)
+
+
+class _NoTermination(BaseException):
+    pass
+
+
+@contextlib.contextmanager
+def step_budget(sig, budget=20000):
+    import rsatoolbox.model.fitter as fitter_mod
+    real = fitter_mod.np
+    proxy = _CountingNumpy(real, budget)
+    fitter_mod.np = proxy
+    try:
+        yield
+    except _NoTermination:
+        raise Violation('the fitter evaluated its loop condition more than %d times without '
+                        'terminating (an active-set solver with k regressors needs O(k) steps)'
+                        % budget, 'no-termination:' + sig.split(':')[-1] if ':' in sig else sig)
+    finally:
+        fitter_mod.np = real
 
 
 # ---------------------------------------------------------------------------
@@ -361,6 +400,10 @@ def call_fit(fn, model, built, sig, on_error='violation', **extra):
 def regress_case(draw):
     case = draw(problem())
     case['normalize'] = draw(st.booleans())
+    # the criteria are scale-free: basis RDMs and training RDMs in small or large units (exact
+    # power-of-two rescaling) have the same optimum up to the scale of the weights
+    case['basis_unit'] = draw(st.sampled_from([0, 0, 0, -30, -17, 6, 20]))
+    case['data_unit'] = draw(st.sampled_from([0, 0, 0, -30, 6, 20]))
     return case
 
 
